@@ -23,13 +23,16 @@ func castJSONNumber(num json.Number, intCallback intCallback, floatCallback floa
 	return nil, false
 }
 
-// applyInt passes x through intCallback, unless x is the minimum int64:
-// neither its negation nor its absolute value fits in an int64, so it is
-// passed through floatCallback as a float64 instead, which represents it
-// exactly.
+// applyInt passes x through intCallback, unless x is the minimum int64 and
+// the operation changes it: neither its negation nor its absolute value fits
+// in an int64, so the result of floatCallback on the float64 that represents
+// it exactly is returned instead. An operation that leaves it as it is (unary
+// plus, floor, ceiling) keeps the integer.
 func applyInt(x int64, intCallback intCallback, floatCallback floatCallback) any {
 	if x == math.MinInt64 {
-		return floatCallback(float64(x))
+		if f := floatCallback(float64(x)); f != float64(x) {
+			return f
+		}
 	}
 	return intCallback(x)
 }
